@@ -211,6 +211,15 @@ CLAIMS = {
             "writing their output",
             "per-binary agreement with abidiff and the matching of binaries are runtime",
             "§3 R-STATUS S5, R-ACCUM; §4 C30"),
+    "C22": ("who-may-write rule over the whole program + must-pass-through dataflow (evidence of a match) at every "
+            "write of the suppression categories",
+            "a diff node enters SUPPRESSED_CATEGORY / PRIVATE_TYPE_CATEGORY only in suppression_categorization_visitor, "
+            "and only on the true edge of is_suppressed() or of a flag set from a child that already carries the "
+            "category; diff::is_suppressed() answers true only after suppresses_diff() did; the suppressed_* sets are "
+            "filled only under a suppression predicate - so with no matching section no node is ever categorised",
+            "that a section whose constraints match nothing makes the predicates answer false (matching logic, "
+            "runtime); suppressions applied while reading (dropped types)",
+            "§8.6 (added after the design: C22 was first declared not applicable)"),
     "C39": ("token-table extraction from the AST of the INI writer and parser (literals emitted vs literals compared), "
             "per grammar production, + call-graph search for the inverse of the parser's escape handling",
             "writer and parser of src/abg-ini.cc agree on every structural token of the four productions (section "
@@ -237,7 +246,6 @@ NOT_APPLICABLE = {
     "C17": "partition between symtab and DWARF-attached symbols is a runtime association; a shape proxy would be a frozen fragment",
     "C18": "oracle is readelf on runtime data; the enum/string vocabulary part is decided under C02",
     "C20": "canonicalisation vs structural equality needs the runtime type graphs",
-    "C22": "'matches nothing' is a runtime relation between patterns and names",
     "C26": "set relation over runtime artifacts (types by declaration location)",
     "C29": "set relation over runtime artifacts (undefined symbols of the application)",
     "C35": "generic memory safety / UB of 120 kLOC has no repo-specific structural rule; sanitizers are a dynamic technique",
